@@ -77,6 +77,12 @@ static Db* make_points(const Sx& pts, const VectorString& vnames, const VectorSt
   for (int c = 0; c < nv; c++) { names.push_back(vnames[c]); locs.push_back(vlocs[c]); }
   return Db::createFromSamples(n, ELoadBy::COLUMN, tab, names, locs, false);
 }
+// optional selection: list of 0/1 flags (empty = none)
+static void add_sel(Db* db, const Sx& sel) {
+  if (db == nullptr || sel.atom || sel.l.empty()) return;
+  VectorDouble tab; for (auto& x : sel.l) tab.push_back(x.i() ? 1. : 0.);
+  db->addSelection(tab, "sel");
+}
 static std::string cols_sx(Db* db, int from) {
   std::ostringstream o; o << "(";
   for (int c = from; c < db->getColumnNumber(); c++) {
@@ -163,6 +169,33 @@ static std::string run(const Sx& c) {
     VectorDouble out; for (int k = 0; k < nitem; k++) out.push_back(db->getFromLocator(ELoc::SIMU, 0, k));
     o << "(0 " << sx_vd(out) << ")";
     delete db; delete model;
+  } else if (kind == 9) {
+    // (9 nbsimu nvar icase eps2 data targets): CalcSimuTurningBands::_updateData2ToTarget, point output
+    // data: (active (x y) (z1..)) ; targets: (active (x y) row)
+    int nbsimu = (int) c[1].i(), nvar = (int) c[2].i(), icase = (int) c[3].i();
+    const Sx& data = c[5]; const Sx& tgs = c[6];
+    int n = (int) data.size(), nt = (int) tgs.size(); int nitem = (int) tgs[0][2].size();
+    VectorDouble tab((size_t) n * (3 + nvar)); VectorString names = { "sel", "x", "y" }, locs = { "sel", "x1", "x2" };
+    for (int v = 0; v < nvar; v++) { names.push_back("z" + std::to_string(v)); locs.push_back("z" + std::to_string(v + 1)); }
+    for (int i = 0; i < n; i++) {
+      tab[i] = data[i][0].b() ? 1. : 0.; tab[n + i] = data[i][1][0].d(); tab[2 * n + i] = data[i][1][1].d();
+      for (int v = 0; v < nvar; v++) tab[(size_t) (3 + v) * n + i] = data[i][2][v].d(TEST);
+    }
+    Db* dbin = Db::createFromSamples(n, ELoadBy::COLUMN, tab, names, locs, false);
+    VectorDouble tt((size_t) nt * 3);
+    for (int i = 0; i < nt; i++) { tt[i] = tgs[i][0].b() ? 1. : 0.; tt[nt + i] = tgs[i][1][0].d(); tt[2 * nt + i] = tgs[i][1][1].d(); }
+    Db* dbout = Db::createFromSamples(nt, ELoadBy::COLUMN, tt, { "sel", "x", "y" }, { "sel", "x1", "x2" }, false);
+    dbout->addColumnsByConstant(nitem, 0., "Simu", ELoc::SIMU);
+    for (int i = 0; i < nt; i++) { VectorDouble r = tgs[i][2].vd(TEST); for (int k = 0; k < nitem; k++) dbout->setFromLocator(ELoc::SIMU, i, k, r[k]); }
+    Model* model = make_model(sx_parse("(0 (10 0) (1 0))"), nvar);
+    CalcSimuTurningBands situba(nbsimu, 10, false, 1234);
+    situba.setModel(model);
+    situba._setNvar(nvar, true);
+    situba._updateData2ToTarget(dbin, dbout, icase, false, false);
+    o << "(0 (";
+    for (int i = 0; i < nt; i++) { VectorDouble r; for (int k = 0; k < nitem; k++) r.push_back(dbout->getFromLocator(ELoc::SIMU, i, k)); o << (i ? " " : "") << sx_vd(r); }
+    o << "))";
+    delete dbin; delete dbout; delete model;
   } else if (kind == 30) {
     // (30 nbsimu nvar icase model data target) data: list of (x y z1 [z2] (row)) ; target: (x y (row))
     int nbsimu = (int) c[1].i(), nvar = (int) c[2].i(), icase = (int) c[3].i();
@@ -221,6 +254,7 @@ static std::string run(const Sx& c) {
     int sim = (int) c[1].i(); int seed = (int) c[2].i(); int nbsimu = (int) c[3].i(); int nbtuba = (int) c[4].i();
     const Sx& g = c[5]; const Sx& data = c[8]; const Sx& targets = c[9]; const Sx& extra = c[10];
     bool oldstyle = c[11].b();
+    static const Sx nosel; const Sx& dsel = (c.size() > 12) ? c[12][0] : nosel; const Sx& tsel = (c.size() > 12) ? c[12][1] : nosel;
     law_set_old_style(oldstyle);
     law_set_random_seed(987123);   // known starting point, then the case-specific history
     prelude(c[7]);
@@ -234,10 +268,10 @@ static std::string run(const Sx& c) {
       grid = make_grid(g); from = grid->getColumnNumber(); res = grid;
       verif_rng_trace_start(); err = simtub(nullptr, grid, model, nullptr, nbsimu, seed, nbtuba); verif_rng_trace_stop();
     } else if (sim == 1) {    // simtub, conditional, grid
-      grid = make_grid(g); dbin = make_points(data, { "z" }, { "z1" }); from = grid->getColumnNumber(); res = grid;
+      grid = make_grid(g); dbin = make_points(data, { "z" }, { "z1" }); add_sel(dbin, dsel); add_sel(grid, tsel); from = grid->getColumnNumber(); res = grid;
       verif_rng_trace_start(); err = simtub(dbin, grid, model, neigh, nbsimu, seed, nbtuba); verif_rng_trace_stop();
     } else if (sim == 2) {    // simtub, conditional, point targets
-      dbin = make_points(data, { "z" }, { "z1" }); dbout = make_points(targets, {}, {}); from = dbout->getColumnNumber(); res = dbout;
+      dbin = make_points(data, { "z" }, { "z1" }); dbout = make_points(targets, {}, {}); add_sel(dbin, dsel); add_sel(dbout, tsel); from = dbout->getColumnNumber(); res = dbout;
       verif_rng_trace_start(); err = simtub(dbin, dbout, model, neigh, nbsimu, seed, nbtuba); verif_rng_trace_stop();
     } else if (sim == 3) {    // simfft
       grid = make_grid(g); from = grid->getColumnNumber(); res = grid;
@@ -245,14 +279,14 @@ static std::string run(const Sx& c) {
       verif_rng_trace_start(); err = simfft(grid, model, param, nbsimu, seed); verif_rng_trace_stop();
     } else if (sim == 4 || sim == 5) {   // simulateSPDE: no seed argument, the caller seeds the generator
       grid = make_grid(g); from = grid->getColumnNumber(); res = grid;
-      if (sim == 5) dbin = make_points(data, { "z" }, { "z1" });
+      if (sim == 5) { dbin = make_points(data, { "z" }, { "z1" }); add_sel(dbin, dsel); }
       verif_rng_trace_start();
       law_set_random_seed(seed);
       err = simulateSPDE(dbin, grid, model, nullptr, nbsimu, nullptr, (int) extra[0].i());
       err = (err >= 0) ? 0 : 1;   // simulateSPDE returns the UID of the first new column
       verif_rng_trace_stop();
     } else if (sim == 6) {    // gibbs_sampler: data = (x y lower upper)
-      dbin = make_points(data, { "lo", "up" }, { "lower1", "upper1" }); from = dbin->getColumnNumber(); res = dbin;
+      dbin = make_points(data, { "lo", "up" }, { "lower1", "upper1" }); add_sel(dbin, dsel); from = dbin->getColumnNumber(); res = dbin;
       int nburn = (int) extra[0].i(), niter = (int) extra[1].i(); bool multi_mono = extra[2].b(); bool moving = extra[3].b();
       verif_rng_trace_start();
       err = gibbs_sampler(dbin, model, nbsimu, seed, nburn, niter, moving, false, multi_mono, false, false, 0, 5., false, false, false);
@@ -263,7 +297,7 @@ static std::string run(const Sx& c) {
       rp = RuleProp::createFromRule(rule, props);
       model2 = make_model(extra[2]);
       int flag_gaus = (int) extra[3].i(); int nburn = (int) extra[4].i(), niter = (int) extra[5].i();
-      if (sim == 8) dbin = make_points(data, { "fac" }, { "z1" });
+      if (sim == 8) { dbin = make_points(data, { "fac" }, { "z1" }); add_sel(dbin, dsel); add_sel(grid, tsel); from = grid->getColumnNumber(); }
       verif_rng_trace_start();
       err = simpgs(dbin, grid, rp, model, model2, neigh, nbsimu, seed, flag_gaus, false, false, false, nbtuba, nburn, niter, 5.);
       verif_rng_trace_stop();
